@@ -944,6 +944,93 @@ func main() {
 	for _, a := range out {
 		fmt.Printf("%s\t%s\t%s\t%s\t%s\n", a.field, a.kind, a.locks, a.fn, a.pos)
 	}
+	// blocking points: channel sends and selects without a default case, and calls of functions that contain one
+	// (Store.send parks on the write queue), each with the locks certainly held there.  A goroutine that parks on the
+	// write queue while it holds a shard lock or the policy lock can deadlock with the maintenance goroutine.
+	blocksIn := map[*ssa.Function]bool{}
+	for _, f := range funcs {
+		for _, b := range f.Blocks {
+			for _, ins := range b.Instrs {
+				switch x := ins.(type) {
+				case *ssa.Send:
+					blocksIn[f] = true
+				case *ssa.Select:
+					if x.Blocking {
+						for _, st := range x.States {
+							if st.Dir == types.SendOnly {
+								blocksIn[f] = true
+							}
+						}
+					}
+				}
+			}
+		}
+	}
+	// ... transitively: a function that calls a blocking function blocks
+	for changed := true; changed; {
+		changed = false
+		for _, f := range funcs {
+			if blocksIn[f] {
+				continue
+			}
+			for _, b := range f.Blocks {
+				for _, ins := range b.Instrs {
+					if c, ok := ins.(*ssa.Call); ok {
+						for _, t := range targets(&c.Call) {
+							t = norm(t)
+							if t != nil && inPkg(t) && blocksIn[t] && !blocksIn[f] {
+								blocksIn[f] = true
+								changed = true
+							}
+						}
+					}
+				}
+			}
+		}
+	}
+	type bsite struct{ what, locks, fn, pos string }
+	var bsites []bsite
+	for _, f := range funcs {
+		if !reach[f] || isCtor(f) {
+			continue
+		}
+		for _, b := range f.Blocks {
+			for _, ins := range b.Instrs {
+				ls := atSite[ins]
+				pos := prog.Fset.Position(ins.Pos())
+				where := fmt.Sprintf("%s:%d", shortFile(pos.Filename), pos.Line)
+				switch x := ins.(type) {
+				case *ssa.Send:
+					bsites = append(bsites, bsite{"send", ls.String(), f.String(), where})
+				case *ssa.Select:
+					if x.Blocking {
+						for _, st := range x.States {
+							if st.Dir == types.SendOnly {
+								bsites = append(bsites, bsite{"select-send", ls.String(), f.String(), where})
+								break
+							}
+						}
+					}
+				case *ssa.Call:
+					for _, t := range targets(&x.Call) {
+						t = norm(t)
+						if t != nil && inPkg(t) && blocksIn[t] {
+							bsites = append(bsites, bsite{"call " + t.Name(), ls.String(), f.String(), where})
+						}
+					}
+				}
+			}
+		}
+	}
+	sort.Slice(bsites, func(i, j int) bool {
+		if bsites[i].pos != bsites[j].pos {
+			return bsites[i].pos < bsites[j].pos
+		}
+		return bsites[i].what < bsites[j].what
+	})
+	for _, b := range bsites {
+		fmt.Printf("#blocksite\t%s\t%s\t%s\t%s\n", b.what, b.locks, b.fn, b.pos)
+	}
 	for _, f := range funcs {
 		fmt.Printf("#entry\t%s\t%s\n", f.String(), entry[f].String())
 	}
